@@ -27,13 +27,23 @@ def generate(seed, tier, prop):
         ks = [0, 1, 1, 2, 3]
     if prop == "C06" and scfg["type"] != "positive" and r.random() < 0.03:
         # occasionally a wide system whose rows are rotated only on its last sites
-        scfg["nv"] = dcfg["nv"] = r.choice([40, 66])
+        scfg["nv"] = dcfg["nv"] = r.choice([40, 66, 70])
         scfg["nh"] = 1
         scfg["scale"] = 0.1
         scfg.pop("custom_unitary", None)
         dcfg.pop("custom_unitary", None)
-        dcfg["basis_mode"] = "high_sites"
-        dcfg["N"] = min(dcfg["N"], 4)
+        dcfg["basis_mode"] = r.choice(["high_sites", "high_sites_shared"])
+        dcfg["N"] = max(3, min(dcfg["N"], 6))
+        if dcfg["basis_mode"] == "high_sites_shared":
+            dcfg["rows_mode"] = "leading_columns"
+            dcfg["dup"] = False
+    elif prop == "C06" and scfg["type"] == "complex" and r.random() < 0.0008:
+        # one big group of rows measured in the same fully rotated setting
+        scfg.update({"nv": 5, "nh": 8, "scale": 0.1})
+        scfg.pop("custom_unitary", None)
+        dcfg.update({"nv": 5, "N": 3000, "basis_mode": "one_setting", "form": "tensor", "dup": False})
+        dcfg.pop("custom_unitary", None)
+        epochs = 1
     many_settings = False
     if prop == "C07" and r.random() < 0.0012:
         # a long randomised-measurement record: tens of thousands of rows, (almost) all with distinct settings;
@@ -46,6 +56,8 @@ def generate(seed, tier, prop):
     pos, neg = P.gen_batching(r, N)
     if many_settings:
         pos, neg = 35000, r.choice([None, 3])
+    if dcfg["N"] == 3000:
+        pos, neg = 3000, 4
     if r.random() < 0.05 and scfg["nv"] <= 4:
         # occasionally a dataset and batch sizes of realistic magnitude
         N = dcfg["N"] = r.choice([33, 64, 65, 130, 257])
